@@ -4,7 +4,11 @@ From RW Require Import Base.Bytes Fmt.Codec Fmt.Frame Wal.Model Wal.Spec Wal.His
 Open Scope N_scope.
 
 Inductive fstep :=
-| FOp (fault : option nat) (o : sop)   (* the call runs with: the (n+1)-th I/O action from now fails *)
+| FOp (fault : option nat) (fx : fxmode) (o : sop)
+     (* the call runs with: the (n+1)-th I/O action from now fails; and, while that fault
+        is armed, the modes fx: every file deletion fails / the directory listing of an
+        Open fails / a failing file creation leaves the empty file behind.  A call in
+        which only the modes are to bite is given a count no call reaches. *)
 | FRestart.                            (* the process stops (no power loss) and the WAL is opened again *)
 
 Record fstate := {
@@ -19,9 +23,10 @@ Record fstate := {
                                recovery, i.e. the call is applied in full at that point     *)
   fs_ok : bool }.
 
-Definition with_fault (s : sstate) (f : option nat) : sstate :=
+Definition with_fault (s : sstate) (f : option nat) (fx : fxmode) : sstate :=
   {| ss_wal := ss_wal s;
-     ss_env := {| e_acts := e_acts (ss_env s); e_disk := e_disk (ss_env s); e_fault := f; e_m := e_m (ss_env s) |} |}.
+     ss_env := {| e_acts := e_acts (ss_env s); e_disk := e_disk (ss_env s); e_fault := f; e_fx := fx;
+                  e_m := e_m (ss_env s) |} |}.
 
 Definition is_mutating (o : sop) : bool :=
   match o with OStore _ | ODelete _ _ | OSet _ _ _ => true | _ => false end.
@@ -45,17 +50,17 @@ Definition matches (got : spst) (alts : list spst) : option spst :=
 
 Definition fstep_run (c : cfg) (h : fstate) (st : fstep) : fstate :=
   match st with
-  | FOp f o =>
+  | FOp f fx o =>
       (* Open adopts whatever complete unsynced batch sits in the tail file *)
       let s_in := match o with
                   | OReopen => {| ss_wal := ss_wal (fs_s h);
                                   ss_env := {| e_acts := e_acts (ss_env (fs_s h));
                                                e_disk := adopt_disk (e_disk (ss_env (fs_s h)));
-                                               e_fault := None; e_m := e_m (ss_env (fs_s h)) |} |}
+                                               e_fault := None; e_fx := fx_none; e_m := e_m (ss_env (fs_s h)) |} |}
                   | _ => fs_s h
                   end in
-      let '(r, s1) := step_model c (with_fault s_in f) o in
-      let s' := with_fault s1 None in
+      let '(r, s1) := step_model c (with_fault s_in f fx) o in
+      let s' := with_fault s1 None fx_none in
       match o with
       | OReopen =>
           match r with
@@ -101,7 +106,7 @@ Definition fstep_run (c : cfg) (h : fstate) (st : fstep) : fstate :=
   | FRestart =>
       let s_re := {| ss_wal := ss_wal (fs_s h);
                      ss_env := {| e_acts := e_acts (ss_env (fs_s h)); e_disk := adopt_disk (e_disk (ss_env (fs_s h)));
-                                  e_fault := None; e_m := e_m (ss_env (fs_s h)) |} |} in
+                                  e_fault := None; e_fx := fx_none; e_m := e_m (ss_env (fs_s h)) |} |} in
       let '(r, s1) := step_model c s_re OReopen in
       match r with
       | ROk =>
@@ -116,14 +121,16 @@ Definition fstep_run (c : cfg) (h : fstate) (st : fstep) : fstate :=
 Definition fault_run (c : cfg) (h : fstate) (steps : list fstep) : fstate := fold_left (fstep_run c) steps h.
 
 Definition fstep_wf (st : fstep) : Prop :=
-  match st with FOp _ o => sop_ok o | FRestart => True end.
+  match st with FOp _ _ o => sop_ok o | FRestart => True end.
 
 Definition fault_init (s0 : sstate) : fstate :=
   let e := {| sp_log := sl_empty; sp_kv := [] |} in
   {| fs_s := s0; fs_nom := e; fs_alts := [e]; fs_defer := []; fs_ok := true |}.
 
-(* C10: for every history of calls in which any I/O action (write, fsync, create,
-   metadata commit, stable write; deletions excepted, see Model.io) fails,
+(* C10: for every history of calls in which any I/O action (write, fsync, create --
+   with or without leaving the empty file behind --, metadata commit, stable write)
+   fails, and/or every file deletion of a call fails, and/or the directory listing of
+   an Open fails,
      - readers of the running process always see exactly the state in which the
        calls that returned nil are applied and those that returned an error are not
        (no acknowledged entry lost or altered; nothing of a failed StoreLogs visible)
